@@ -945,17 +945,17 @@ Section Adjoint.
 
   Local Notation einsumP := (einsum_plain K k0 kadd kmul).
 
-  (* (d) the rewritten subscripts compute the exact adjoint, on the executable model *)
-  Theorem adjoint_plain l r o l' r' o' (B x y Ax : arrK) :
-    no_dots l -> no_dots r -> no_dots o ->
-    transposed_triple l r o = Ok (l', r', o') ->
+  (* the core of (d): any exchange of two letters sa, ta that maps the output subscript onto the
+     leaf subscript, applied to the blocks' subscript, gives the adjoint *)
+  Lemma adjoint_plain_gen sa ta l r o (B x y Ax : arrK) :
+    In sa l -> ~ In sa o -> map (swap_chr sa ta) o = r ->
     einsumP l r o B x = Some Ax ->
     shape y = shape Ax -> wf_arr K y ->
-    exists ATy, einsumP l' r' o' B y = Some ATy /\ shape ATy = shape x /\ dotK Ax y = dotK x ATy.
+    exists ATy, einsumP (map (swap_chr sa ta) l) r o B y = Some ATy /\ shape ATy = shape x /\
+                dotK Ax y = dotK x ATy.
   Proof.
-    intros Nl Nr No HT HE Sy Wy.
-    destruct (accepted_nodots _ _ _ _ _ _ Nl Nr No HT) as
-      [-> [-> [sa [ta [Sl [Sr [So [Tl [To [Tr [Hne [Mo [Mr ->]]]]]]]]]]]]].
+    intros Sl So Mo HE Sy Wy.
+    assert (Mr : map (swap_chr sa ta) r = o) by (rewrite <- Mo; apply map_swap_invol).
     set (p := swap_chr sa ta) in *.
     assert (Hp : forall c, p (p c) = c) by (intros; apply swap_chr_invol).
     unfold einsum_plain in HE.
@@ -1015,6 +1015,20 @@ Section Adjoint.
       + intros c Hc. exact (D' c (proj2 (In_letters c _ _ _) (or_intror (or_intror Hc)))).
     - rewrite (einsum_d_dims_ext _ _ _ (dim_of env') d') by auto.
       apply (adjoint_d p l r o d B x y); auto.
+  Qed.
+
+  (* (d) the rewritten subscripts compute the exact adjoint, on the executable model *)
+  Theorem adjoint_plain l r o l' r' o' (B x y Ax : arrK) :
+    no_dots l -> no_dots r -> no_dots o ->
+    transposed_triple l r o = Ok (l', r', o') ->
+    einsumP l r o B x = Some Ax ->
+    shape y = shape Ax -> wf_arr K y ->
+    exists ATy, einsumP l' r' o' B y = Some ATy /\ shape ATy = shape x /\ dotK Ax y = dotK x ATy.
+  Proof.
+    intros Nl Nr No HT HE Sy Wy.
+    destruct (accepted_nodots _ _ _ _ _ _ Nl Nr No HT) as
+      [-> [-> [sa [ta [Sl [Sr [So [Tl [To [Tr [Hne [Mo [Mr ->]]]]]]]]]]]]].
+    apply adjoint_plain_gen; auto.
   Qed.
 
   (* ---------- the tokenised front end (jnp.einsum) on ellipsis-free subscripts ---------- *)
